@@ -745,6 +745,37 @@ def run_program(args):
         v = evaluate_case(case, os.path.join(wd_root, "c%d" % ci), stats=stats)
         for cls, detail in v:
             res["violations"].append({"class": cls, "detail": detail, "kind": "case", "case": case.to_json()})
+    # every sixth program (and every one whose `main` has no return type) is also built for real:
+    # the executable of the unsplit program and of two file orders of a split, with and without
+    # optimisation, behave like the program under lli (undefined behaviour in the IR shows here first)
+    void_main = "\nfn main()\n" in "\n" + built["single"]
+    if (i % 6 == 0 or void_main) and built["cases"] and os.path.exists("/usr/bin/clang"):
+        case = built["cases"][0]
+        if not case.cwd:
+            bwd = os.path.join(wd_root, "built")
+            fresh_dir(bwd)
+            write_files(bwd, dict(case.files, **{"zz_single.pn": built["single"]}))
+            seen_b = []
+            for order in [["zz_single.pn"]] + [o for o in case.orders[:2]]:
+                if any(":" in n for n in order):
+                    continue
+                for opt in ("", "-O2"):
+                    r = penne_run(bwd, order, case.entropies[0], extra_args=["-o", "zz_exe"] + (["--backend-args=" + opt] if opt else []), sub="build")
+                    stats["runs"] = stats.get("runs", 0) + 1
+                    stats["real_builds"] = stats.get("real_builds", 0) + 1
+                    if r.rc != 0 or r.sig:
+                        b = ("build_failed", r.status(), r.err.decode(errors="replace")[-300:])
+                    else:
+                        x = run_proc([os.path.join(bwd, "zz_exe")], bwd, base_env())
+                        b = ("ok", x.rc if not x.sig else "signal %d" % x.sig, x.out.decode(errors="replace"))
+                    seen_b.append((order, opt or "-O0", b))
+            want = ("ok", ref[1], ref[2])
+            for order, opt, b in seen_b:
+                if b != want:
+                    res["violations"].append({"class": "built_program_differs", "kind": "case", "case": case.to_json(),
+                                              "detail": "built with %s from %s: %r; under lli the program gives %r%s" %
+                                              (opt, order, b, want, " (main has no return type)" if void_main else "")})
+                    break
     for ni, neg in enumerate(built["negatives"]):
         res["neg_by_reason"][neg["reason"] + "/" + neg["kind"]] = res["neg_by_reason"].get(neg["reason"] + "/" + neg["kind"], 0) + 1
         v = evaluate_negative(neg, os.path.join(wd_root, "n%d" % ni), stats=stats)
@@ -965,6 +996,7 @@ def run(tier, seed):
         "histories": stats.get("histories", 0),
         "cli_runs": stats.get("runs", 0),
         "llvm_as_checks": stats.get("llvm_as", 0),
+        "real_clang_builds_executed": stats.get("real_builds", 0),
         "hygiene_templates": len(HYGIENE_TEMPLATES),
         "hygiene_template_runs": template_runs,
         "runs_per_hour": rate_per_hour(runs, wall),
